@@ -606,6 +606,7 @@ func (c *ctx) c19DirectWriteTo(vals []sx.V) {
 			c.res.Violate("correspondence", fmt.Sprintf("C19/direct-writeto-mismatch/kind=%d", kind),
 				fmt.Sprintf("Domain()/WriteTo called directly differ from the model's item: go ok=%v dom=%q panic=%q; model ok=%v dom=%q", gok, dom, pan, mok, md),
 				c19Replay{SeqA: seqString([]sx.V{v}), GoA: hex.EncodeToString(dat), Model: mb, What: "direct WriteTo", Hints: hintsFor([]sx.V{v})})
+			c.c19MismatchSearch(v)
 		}
 	}
 }
